@@ -718,6 +718,24 @@ fn gen13(seed: u64, n: usize, out: &str) {
     w.flush().unwrap();
 }
 
+/// reports the pragmas in force on a connection opened by the real `create_connection` (trusted-base probe of C13)
+fn pragmas(a: &Args) {
+    let dir = PathBuf::from(a.str_or("work", "/tmp"));
+    std::fs::create_dir_all(&dir).unwrap();
+    let path = dir.join("pragma_probe.db");
+    let _ = std::fs::remove_file(&path);
+    let secret = [7u8; 32];
+    let conn = discret::verif_hooks::database::sqlite_database::create_connection(&path, &secret, 1024, false).unwrap();
+    for p in ["journal_mode", "synchronous", "busy_timeout", "foreign_keys", "auto_vacuum", "temp_store", "cache_size"] {
+        let v: String = conn
+            .query_row(&format!("PRAGMA {}", p), [], |r| r.get::<_, rusqlite::types::Value>(0))
+            .map(|v| format!("{:?}", v))
+            .unwrap_or_else(|e| format!("err {}", e));
+        println!("{} = {}", p, v);
+    }
+    let _ = std::fs::remove_file(&path);
+}
+
 fn main() {
     let a = Args::parse();
     match a.cmd.as_str() {
@@ -729,6 +747,7 @@ fn main() {
             Path::new(&a.str_or("work", "/tmp")),
         ),
         "gen" => gen13(a.u64_or("seed", 1), a.usize_or("n", 20), &a.str_or("out", "cases.ops")),
+        "pragmas" => pragmas(&a),
         "enum16" => c16::enumerate(&a),
         "gen16" => c16::gen(&a),
         _ => {
